@@ -27,3 +27,10 @@ Example C12_example :   (* $[?!(@.a == 1) && (@.b || $.c)] *)
                               (EOr (ERel [Child [SName [98%N]]]) (EAbs [Child [SName [99%N]]])))]]
   = [36;91;63;33;40;64;91;39;97;39;93;32;61;61;32;49;41;32;38;38;32;40;64;91;39;98;39;93;32;124;124;32;36;91;39;99;39;93;41;93]%N.
 Proof. vm_compute. reflexivity. Qed.
+
+(* precedences, operator tables and the key sets of token_map / function_argument_map in the model are the ones
+   REGENERATED from parse.py and filter_expressions.py on this run *)
+From JP Require Import Proofs.GenTies.
+Theorem C12_parser_tables_regenerated : parse_tables_ok = true.
+Proof. exact parse_tables_regenerated. Qed.
+Print Assumptions C12_parser_tables_regenerated.
